@@ -280,10 +280,12 @@ class Runner:
         seq = self.render(case["sequential"], valmap)
         short = {v: "<%s>" % k for k, v in valmap.items() if v}
 
+        root = exp.instanceDirectory.location
+
         def sh(text):
             for v in sorted(short, key=len, reverse=True):
                 text = text.replace(v, short[v])
-            return text
+            return text.replace(root, "$INSTANCE")
         rp = {"case": case, "universe": universe}
         declared = [spelled(d, "abs") for d in case["decl"]]
         if seq != want:
